@@ -148,6 +148,11 @@ func (j *c06job) runSeq() {
 			j.stats["reused_solver_calls"]++
 			j.stats["verdict_reused_"+verdictStr(r.Result)]++
 			one := &c06job{kind: "dfpn", root: p, g: j.seqG[i], entries: j.entries, attacker: j.attacker, stats: j.stats, work: st.Work}
+			if i > 0 {
+				// the table may hold proofs found by the earlier calls: the number of mid calls of THIS call says
+				// nothing about the depth of the proof, so the work-bounded exhaustive check does not apply
+				one.work = 1 << 30
+			}
 			one.judge(fmt.Sprintf("%s (call %d of the sequence)", in, i+1), r, att, l1)
 			for _, f := range one.out {
 				// the same position on a fresh solver
